@@ -4,6 +4,10 @@ workloads run, for each property.  (Orchestration data only.)"""
 MC = "model_checking"
 
 PROPS = {
+    "C04": {"level": MC, "steps": [{"kind": "wl", "name": "c04"}]},
+    "C05": {"level": MC, "steps": [{"kind": "wl", "name": "c05"}]},
+    "C07": {"level": MC, "steps": [{"kind": "wl", "name": "c07"}]},
+    "C19": {"level": MC, "steps": [{"kind": "wl", "name": "c19"}]},
     "C02": {"level": MC, "steps": [{"kind": "wl", "name": "c02"}]},
     "C10": {"level": MC, "steps": [{"kind": "wl", "name": "c10"}]},
     "C01": {"level": MC, "steps": [
